@@ -28,15 +28,29 @@ DEFAULT_EXCLUDED_PATHS = [
 ]
 
 
-def file_line_patterns(file_path: str | Path, patterns: Sequence[str]):
+def file_line_patterns(
+    file_path: str | Path,
+    patterns: Sequence[str],
+    directory: Optional[str | Path] = None,
+):
     """
     Find the lines included or excluded for a given file_path among the patterns
+
+    Patterns are matched against the path as given and, when `directory` is
+    provided, against the path relative to that directory (the form used by
+    every other include/exclude pattern).
     """
+    candidates = [str(file_path)]
+    if directory is not None:
+        try:
+            candidates.append(str(Path(file_path).relative_to(directory)))
+        except ValueError:
+            pass
     return [
         int(result[1])
         for pat in patterns
         if len(result := pat.split(":")) == 2
-        and fnmatch.fnmatch(str(file_path), result[0])
+        and any(fnmatch.fnmatch(candidate, result[0]) for candidate in candidates)
     ]
 
 
